@@ -52,6 +52,10 @@ pub enum Emode {
     TwoLiabsPlainKeyAbove,
     /// ... and sorts after the first
     TwoLiabsPlainKeyBelow,
+    /// like TwoLiabsMin, with the second debt bank's address chosen above / below the first's (the order in which
+    /// the two tables are merged)
+    TwoLiabsMinKeyAbove,
+    TwoLiabsMinKeyBelow,
     /// two borrowed banks; the e-mode admin asks for the first one's table to list the collateral's tag twice,
     /// with another entry in between (if the program refuses, the table without the repetition is installed);
     /// the second has no table: no benefit
@@ -127,8 +131,8 @@ pub fn build(c: &Cfg, tag: &str) -> Option<Built> {
     // engine meets them: pick a label whose derived key sorts as the configuration asks
     let l_key = world::key(&format!("C04{tag}:bank:L"));
     let l2_label = match c.emode {
-        Emode::TwoLiabsPlainKeyAbove | Emode::TwoLiabsPlainKeyBelow => {
-            let want_above = c.emode == Emode::TwoLiabsPlainKeyAbove;
+        Emode::TwoLiabsPlainKeyAbove | Emode::TwoLiabsPlainKeyBelow | Emode::TwoLiabsMinKeyAbove | Emode::TwoLiabsMinKeyBelow => {
+            let want_above = matches!(c.emode, Emode::TwoLiabsPlainKeyAbove | Emode::TwoLiabsMinKeyAbove);
             (0..100_000).map(|i| format!("L2v{i}")).find(|l| (world::key(&format!("C04{tag}:bank:{l}")) > l_key) == want_above).unwrap_or_else(|| panic!("no label for tag {tag} above={want_above} l_key={l_key}"))
         }
         _ => "L2".to_string(),
@@ -176,7 +180,7 @@ pub fn build(c: &Cfg, tag: &str) -> Option<Built> {
             return None;
         }
         let e_main = match c.emode {
-            Emode::Raises | Emode::TwoLiabsMin | Emode::TwoLiabsDisjoint | Emode::TwoLiabsPlainKeyAbove | Emode::TwoLiabsPlainKeyBelow | Emode::TwoLiabsDupTag => entry(7, 0.9, 0.94),
+            Emode::Raises | Emode::TwoLiabsMin | Emode::TwoLiabsMinKeyAbove | Emode::TwoLiabsMinKeyBelow | Emode::TwoLiabsDisjoint | Emode::TwoLiabsPlainKeyAbove | Emode::TwoLiabsPlainKeyBelow | Emode::TwoLiabsDupTag => entry(7, 0.9, 0.94),
             Emode::BelowBank => entry(7, 0.1, 0.2),
             Emode::Off => unreachable!(),
         };
@@ -187,7 +191,7 @@ pub fn build(c: &Cfg, tag: &str) -> Option<Built> {
             return None;
         }
         match c.emode {
-            Emode::TwoLiabsMin => {
+            Emode::TwoLiabsMin | Emode::TwoLiabsMinKeyAbove | Emode::TwoLiabsMinKeyBelow => {
                 if !tx(&mut s, ix::configure_bank_emode(g, w.roles.emode, w.banks[l2i].key, 0, entries(&[entry(7, 0.7, 0.94)])), w.roles.emode) {
                     if std::env::var("VERIF_C04_DEBUG").is_ok() { eprintln!("c04 build failed at line 173: {:?}", c); }
                     return None;
@@ -224,7 +228,7 @@ pub fn build(c: &Cfg, tag: &str) -> Option<Built> {
             }
         }
     }
-    if matches!(c.emode, Emode::TwoLiabsMin | Emode::TwoLiabsDisjoint | Emode::TwoLiabsPlainKeyAbove | Emode::TwoLiabsPlainKeyBelow | Emode::TwoLiabsDupTag) {
+    if matches!(c.emode, Emode::TwoLiabsMin | Emode::TwoLiabsMinKeyAbove | Emode::TwoLiabsMinKeyBelow | Emode::TwoLiabsDisjoint | Emode::TwoLiabsPlainKeyAbove | Emode::TwoLiabsPlainKeyBelow | Emode::TwoLiabsDupTag) {
         // a small second debt so that two borrowed banks take part in the e-mode reconciliation
         if !act::apply(&w, &mut s, &Action::Borrow { u: 0, b: l2i, amt: 1_000_000 }).committed {
             if std::env::var("VERIF_C04_DEBUG").is_ok() { eprintln!("c04 build failed at line 206: {:?}", c); }
@@ -556,7 +560,7 @@ pub fn configs(tier: Tier) -> Vec<Cfg> {
                             }
                         }
                     }
-                    for &emode in &[Emode::TwoLiabsPlainKeyAbove, Emode::TwoLiabsPlainKeyBelow, Emode::TwoLiabsDupTag] {
+                    for &emode in &[Emode::TwoLiabsPlainKeyAbove, Emode::TwoLiabsPlainKeyBelow, Emode::TwoLiabsDupTag, Emode::TwoLiabsMinKeyAbove, Emode::TwoLiabsMinKeyBelow] {
                         for second in [false, true] {
                             v.push(Cfg { w_init, price_e8, ema, conf_pp, state: CollState::Normal, second, liab_w: 1.25, liab_conf_pp: 0, emode, withdraw, many: false, no_main: false });
                         }
